@@ -890,3 +890,7 @@ Example full_shuffle_runs :
   ORet (obj_val {| mseq := [Lys; Gly; Asp; Ala; Glu; Arg]; mpat := [1; 0; -1; 0; -1; 1]; mdmax := None |})
   /\ fullShuffle ex_o [0%nat; 3%nat] [5; 1; 4; 2]%nat = Some {| mseq := [Lys; Gly; Asp; Ala; Glu; Arg]; mpat := [1; 0; -1; 0; -1; 1]; mdmax := None |}.
 Proof. split; vm_compute; reflexivity. Qed.
+
+(* the public shuffle: exactly a new parameters object around the backend's full_shuffle of the caller's frozen set *)
+Lemma fw_get_shuffled_sequence : g_fw_get_shuffled_sequence = SReturn (ECall "SequenceParameters|SeqObj"%string [ECall "SeqObj.full_shuffle"%string [EVar "frozen"%string]]).
+Proof. reflexivity. Qed.
